@@ -404,7 +404,14 @@ func (w *world) byzPropose() bool {
 	for i := 0; i < nvar; i++ {
 		var bi blockInfo
 		reuse := len(w.blocks[h]) > 0 && rapid.IntRange(0, 3).Draw(w.t, "reuse") == 0
-		if reuse {
+		var stale *blockInfo
+		if !reuse && rapid.IntRange(0, 5).Draw(w.t, "stale") == 0 {
+			stale = w.staleBlock(like, h)
+		}
+		if stale != nil {
+			bi = *stale
+			w.stats.invalidBlocks++
+		} else if reuse {
 			bi = w.blocks[h][rapid.IntRange(0, len(w.blocks[h])-1).Draw(w.t, "bidx")]
 		} else {
 			invalid := rapid.IntRange(0, 5).Draw(w.t, "invalid") == 0
@@ -562,6 +569,49 @@ func (w *world) byzReplayEquivocation() bool {
 	return true
 }
 
+// byzRelabel: a faulty validator takes a vote somebody really signed (its own, for preference) and sends copies
+// that claim to come from other validators, straight to one node, before those validators' own votes get there.
+func (w *world) byzRelabel() bool {
+	if len(w.s.faulty) == 0 {
+		return false
+	}
+	var cands []*Packet
+	for _, p := range w.net.Pool {
+		if (p.Kind == "prevote" || p.Kind == "precommit") && p.Block != "" {
+			cands = append(cands, p)
+		}
+	}
+	if len(cands) == 0 {
+		return false
+	}
+	lo := len(cands) - 12
+	if lo < 0 {
+		lo = 0
+	}
+	src := cands[rapid.IntRange(lo, len(cands)-1).Draw(w.t, "rl.src")]
+	n := w.pickNode("rl.node")
+	if n.RS().Height != src.H {
+		return false
+	}
+	k := w.s.faulty[rapid.IntRange(0, len(w.s.faulty)-1).Draw(w.t, "rl.k")]
+	only := map[int]bool{n.Key: true}
+	if !w.net.Allowed(src, n.Key) && src.Only != nil {
+		// the original was not meant for this node; the copies are
+	}
+	w.net.Deliver(src, n.Key)
+	all := rapid.Bool().Draw(w.t, "rl.all")
+	for _, as := range w.s.keys {
+		if !all && !rapid.Bool().Draw(w.t, "rl.as") {
+			continue
+		}
+		if p := w.net.InjectRelabelledVote(k, src, as, only); p != nil {
+			w.net.Deliver(p, n.Key)
+			w.stats.byzVotes++
+		}
+	}
+	return true
+}
+
 // RunFree plays one free-form case: every step is an independently drawn scheduler or adversary action.
 func RunFree(t *rapid.T, opt Options) {
 	test, maxSteps, targetHeights := opt.Test, opt.MaxSteps, opt.TargetHeights
@@ -585,9 +635,9 @@ func RunFree(t *rapid.T, opt Options) {
 	case "calm":
 		weights = []string{"sync", "sync", "burst", "one", "fireall", "fire", "class"}
 	case "mixed":
-		weights = []string{"sync", "burst", "burst", "one", "one", "class", "class", "fire", "fire", "fireall", "partition", "heal", "bprop", "bvote", "bvote", "maj23", "dup", "replay-equiv"}
+		weights = []string{"sync", "burst", "burst", "one", "one", "class", "class", "fire", "fire", "fireall", "partition", "heal", "bprop", "bvote", "bvote", "maj23", "dup", "replay-equiv", "relabel"}
 	default:
-		weights = []string{"burst", "one", "class", "class", "class", "fire", "fire", "fireall", "partition", "heal", "bprop", "bprop", "bvote", "bvote", "bvote", "maj23", "dup", "replay-equiv", "replay-equiv"}
+		weights = []string{"burst", "one", "class", "class", "class", "fire", "fire", "fireall", "partition", "heal", "bprop", "bprop", "bvote", "bvote", "bvote", "maj23", "dup", "replay-equiv", "replay-equiv", "relabel"}
 	}
 	prev := w.observe(nil)
 	steps := 0
@@ -1063,7 +1113,11 @@ func (w *world) playHeight(shadow *Shadow, h int64, maxRounds int32) {
 			free = 0 // a scripted prefix is not disturbed by free-form steps
 		}
 		for i := free; i > 0; i-- {
-			switch rapid.SampledFrom([]string{"one", "class", "fire", "burst", "dup", "maj23", "replay-equiv"}).Draw(w.t, "freeact") {
+			switch rapid.SampledFrom([]string{"one", "class", "fire", "burst", "dup", "maj23", "replay-equiv", "relabel"}).Draw(w.t, "freeact") {
+			case "relabel":
+				if !w.byzRelabel() {
+					w.deliverOne()
+				}
 			case "replay-equiv":
 				if !w.byzReplayEquivocation() {
 					w.deliverDup()
@@ -1087,6 +1141,22 @@ func (w *world) playHeight(shadow *Shadow, h int64, maxRounds int32) {
 	}
 }
 
+// staleBlock returns a block of the previous height: the one node `like` stored, or another one proposed there.
+func (w *world) staleBlock(like *Node, h int64) *blockInfo {
+	if h-1 < w.net.Cfg.InitialHeight {
+		return nil
+	}
+	if c := w.blocks[h-1]; len(c) > 0 && rapid.IntRange(0, 2).Draw(w.t, "stale.other") == 0 {
+		return &c[rapid.IntRange(0, len(c)-1).Draw(w.t, "stale.idx")]
+	}
+	b := like.BlockStore.LoadBlock(h - 1)
+	if b == nil {
+		return nil
+	}
+	ps := b.MakePartSet(types.BlockPartSizeBytes)
+	return &blockInfo{types.BlockID{Hash: b.Hash(), PartSetHeader: ps.Header()}, b, ps}
+}
+
 func (w *world) structuredByzProposal(h int64, r int32, pk int, pat pattern) {
 	var like *Node
 	for _, n := range w.active(h) {
@@ -1096,7 +1166,7 @@ func (w *world) structuredByzProposal(h int64, r int32, pk int, pat pattern) {
 	if like == nil {
 		return
 	}
-	strat := rapid.SampledFrom([]string{"none", "new", "new", "new", "new", "reuse", "two", "two", "invalid"}).Draw(w.t, "bprop.strat")
+	strat := rapid.SampledFrom([]string{"none", "new", "new", "new", "new", "reuse", "two", "two", "invalid", "stale"}).Draw(w.t, "bprop.strat")
 	if f, ok := w.forced["bprop.strat"]; ok {
 		strat = f
 	}
@@ -1139,6 +1209,13 @@ func (w *world) structuredByzProposal(h int64, r int32, pk int, pat pattern) {
 		if bi := mk(0, true); bi != nil {
 			w.net.InjectProposal(pk, h, r, pol, bi.block, bi.parts, nil, true)
 			w.stats.byzProposals++
+		}
+	case "stale":
+		// the block decided (or merely proposed) at the PREVIOUS height, offered again for this one
+		if bi := w.staleBlock(like, h); bi != nil {
+			w.net.InjectProposal(pk, h, r, pol, bi.block, bi.parts, nil, true)
+			w.stats.byzProposals++
+			w.stats.invalidBlocks++
 		}
 	case "reuse":
 		if len(w.blocks[h]) > 0 {
@@ -1279,7 +1356,7 @@ func RunStructured(t *rapid.T, opt Options) {
 	w.finish(test, "structured", 0)
 }
 
-var mixedWeights = []string{"sync", "burst", "burst", "one", "one", "class", "class", "fire", "fire", "fireall", "partition", "heal", "bprop", "bvote", "bvote", "maj23", "dup", "replay-equiv"}
+var mixedWeights = []string{"sync", "burst", "burst", "one", "one", "class", "class", "fire", "fire", "fireall", "partition", "heal", "bprop", "bvote", "bvote", "maj23", "dup", "replay-equiv", "relabel"}
 
 func (w *world) freeStep() { w.step(mixedWeights) }
 
@@ -1307,6 +1384,10 @@ func (w *world) step(weights []string) {
 	case "replay-equiv":
 		if !w.byzReplayEquivocation() {
 			w.deliverDup()
+		}
+	case "relabel":
+		if !w.byzRelabel() {
+			w.deliverOne()
 		}
 	case "bprop":
 		if !w.byzPropose() {
